@@ -218,8 +218,68 @@ def replay_coll3(groups):
                 A = g.PointCollection(np.array([r["r"]["a"] + [1] for r in recs]))
                 B = g.PointCollection(np.array([r["r"]["b"] + [1] for r in recs]))
                 got = pts_of(g.Polygon(*[P(v) for v in poly]).intersect(g.join(A, B)))
-                exp = [np.array(p) for r in recs for p in r["r"]["r"]["pts"]]
+                exp = [np.array(p) for r in recs if r["r"]["r"]["k"] == "set" for p in r["r"]["r"]["pts"]]
+                # lines lying IN the plane of the polygon may be mixed in: nothing is required of those positions, a returned
+                # point beyond the expected ones is accepted when it lies on such a line
+                inl = [(np.array(r["r"]["a"], dtype=float), np.array(r["r"]["b"], dtype=float)) for r in recs if r["r"]["r"]["k"] != "set"]
+                if inl:
+                    left, keep = list(exp), []
+                    for v in got:
+                        hit = [i for i, e_ in enumerate(left) if same_class(v, e_)]
+                        if hit:
+                            left.pop(hit[0])
+                            keep.append(v)
+                            continue
+                        w = np.asarray(v, dtype=complex)
+                        q = (w[:-1] / w[-1]).real if abs(w[-1]) > 1e-12 else None
+                        if q is None or not any(np.linalg.norm(np.cross(q - a_, b_ - a_)) <= 1e-7 * (1 + np.linalg.norm(q)) for a_, b_ in inl):
+                            keep.append(v)
+                    got = keep
                 cmp("Polygon.intersect(LineCollection)/3D", {"poly": poly, "lines": [[r["r"]["a"], r["r"]["b"]] for r in recs][:10], "count": len(recs)}, got, exp)
+            elif kind == "segs":
+                # one polygon against a SegmentCollection, and the PolygonCollection holding it once per segment against the
+                # same SegmentCollection (both orders).  Segments lying IN the plane of the polygon are mixed in: what those
+                # positions contribute is not defined by the property (a point of such a segment is accepted, none is required);
+                # every other position must contribute exactly its common point
+                poly = recs[0]["r"]["poly"]
+                A = np.array([r["r"]["a"] + [1] for r in recs])
+                B = np.array([r["r"]["b"] + [1] for r in recs])
+                segs = g.SegmentCollection(np.stack([A, B], axis=1))
+                exp = [np.array(p_) for r in recs if r["r"]["r"]["k"] == "set" for p_ in r["r"]["r"]["pts"]]
+                inplane = [(np.array(r["r"]["a"], dtype=float), np.array(r["r"]["b"], dtype=float)) for r in recs if r["r"]["r"]["k"] != "set"]
+
+                def on_inplane(v):
+                    v = np.asarray(v, dtype=complex)
+                    if abs(v[-1]) < 1e-12 or np.abs(v.imag).max() > 1e-9:
+                        return False
+                    q = (v[:-1] / v[-1]).real
+                    for a_, b_ in inplane:
+                        d_ = b_ - a_
+                        t_ = np.dot(q - a_, d_) / np.dot(d_, d_)
+                        if -1e-9 <= t_ <= 1 + 1e-9 and np.linalg.norm(a_ + t_ * d_ - q) <= 1e-7:
+                            return True
+                    return False
+                one = g.Polygon(*[P(v) for v in poly])
+                many = g.PolygonCollection(np.array([[list(v) + [1] for v in poly]] * len(recs)))
+                for site, call in (("Polygon.intersect(SegmentCollection)/3D", lambda: one.intersect(segs)),
+                                   ("PolygonCollection.intersect(SegmentCollection)/3D", lambda: many.intersect(segs)),
+                                   ("SegmentCollection.intersect(PolygonCollection)/3D", lambda: segs.intersect(many))):
+                    try:
+                        got = pts_of(call())
+                    except NotImplementedError:
+                        continue
+                    # points beyond the expected ones are accepted when they lie on an in-plane segment
+                    left = list(exp)
+                    extra = []
+                    for v in got:
+                        hit = [i for i, e_ in enumerate(left) if same_class(v, e_)]
+                        if hit:
+                            left.pop(hit[0])
+                        else:
+                            extra.append(v)
+                    got = [v for v in got if not any(v is x_ for x_ in extra) or not on_inplane(v)]
+                    cmp(site + "/in-plane-segments-mixed-in", {"poly": poly, "segments": [[r["r"]["a"], r["r"]["b"]] for r in recs],
+                                                               "in_plane": [r["r"]["r"]["k"] != "set" for r in recs]}, got, exp)
             else:
                 a, b = recs[0]["r"]["a"], recs[0]["r"]["b"]
                 polys = g.PolygonCollection(np.array([[list(v) + [1] for v in r["r"]["poly"]] for r in recs]))
@@ -233,7 +293,8 @@ def replay_coll3(groups):
                 exp2 = [np.array(p) for r in recs[:2] for p in r["r"]["r"]["pts"] for _ in (0, 1)]
                 cmp("PolygonCollection.intersect(Line)/3D/two-collection-axes", {"polys": [r["r"]["poly"] for r in recs[:2]], "a": a, "b": b}, got2, exp2)
         except Exception as e:  # noqa: BLE001
-            out.append(dict(site=("Polygon.intersect(LineCollection)/3D" if kind == "lines" else "PolygonCollection.intersect(Line)/3D"),
+            out.append(dict(site=("Polygon.intersect(LineCollection)/3D" if kind == "lines" else "Polygon.intersect(SegmentCollection)/3D" if kind == "segs"
+                                  else "PolygonCollection.intersect(Line)/3D"),
                             stratum="collection", case={"count": len(recs)}, expected="points", observed=f"raised {type(e).__name__}: {e}"))
     return out
 
@@ -286,9 +347,35 @@ def run(ctx: Ctx):
         if len(x["r"]["poly"]) == 4:
             byline.setdefault(str((x["r"]["a"], x["r"]["b"])), []).append(x)
     g3 = []
-    for v in bypoly.values():
+    p3rel = {}
+    for x in recs:
+        if x["r"]["t"] == "polyline3" and x["r"]["r"]["k"] != "set":
+            p3rel.setdefault(str(x["r"]["poly"]), []).append(x)
+    if not p3rel:
+        raise MachineryError("no line lying in the plane of a polygon (vacuous)")
+    for key, v in bypoly.items():
         g3 += [("lines", v[i:i + 9]) for i in range(0, len(v), 9) if len(v[i:i + 9]) >= 2]
+        rels = p3rel.get(key, [])
+        for j, i in enumerate(range(0, len(v), 11)):
+            if rels and len(v[i:i + 6]) >= 2:
+                g3.append(("lines", v[i:i + 3] + [rels[j % len(rels)]] + v[i + 3:i + 6] + ([rels[(3 * j + 1) % len(rels)]] if j % 2 else [])))
     g3 += [("polys", v) for v in byline.values() if len(v) >= 2]
+    # polygon x segments: chunks of "set" cases with one or two in-plane segments mixed in (in the middle / at the end)
+    s3 = [x for x in recs if x["r"]["t"] == "polyseg3"]
+    bypoly3 = {}
+    for x in s3:
+        bypoly3.setdefault(str(x["r"]["poly"]), ([], []))[0 if x["r"]["r"]["k"] == "set" else 1].append(x)
+    nsegs = 0
+    for sets, rels in bypoly3.values():
+        for j, i in enumerate(range(0, len(sets), 7)):
+            chunk = sets[i:i + 7]
+            if rels:
+                chunk = chunk[:3] + [rels[j % len(rels)]] + chunk[3:] + ([rels[(j * 5 + 1) % len(rels)]] if j % 2 else [])
+            if len(chunk) >= 2:
+                g3.append(("segs", chunk))
+                nsegs += 1
+    if nsegs < 10 or not any(rels for _, rels in bypoly3.values()):
+        raise MachineryError("too few polygon x SegmentCollection groups / no in-plane segment (vacuous)")
     if len(g3) < 20 or not any(k == "polys" for k, _ in g3) or not any(k == "lines" for k, _ in g3):
         raise MachineryError("too few 3D collection groups (vacuous)")
     ctx.log(f"{sum(1 for k, _ in g3 if k == 'lines')} polygon x LineCollection groups, {sum(1 for k, _ in g3 if k == 'polys')} PolygonCollection x line groups")
